@@ -333,7 +333,7 @@ def ob_inplace_update(kind):
         dates = [0.0, 1.0, 0.0, 2.0]
         x = torch.tensor([0.5, 0.25, 3.0], dtype=torch.float64) if kind == "ratios" else torch.tensor([0.5, 0.7, 0.3], dtype=torch.float64)
         tm, newick = treemodels.build_reparam(tree, names, dates, x.clone(), kind)
-        p = tm._internal_heights
+        p = treemodels.tree_parameter(tm)
         _ = tm.node_heights, tm.branch_lengths(), tm()
         with torch.no_grad():
             p.tensor.mul_(0.9) if kind == "ratios" else p.tensor.add_(0.25)
